@@ -261,9 +261,19 @@ def generate(rng, index, cfg):
         "w_merge": rng.choice([0.1, 0.3, 0.5]),
         "focus_p": rng.choice([0.0, 0.5, 0.9, 1.0]),
         "p_repeat": rng.choice([0.0, 0.3, 0.6]),
+        "long_p": rng.choice([0.0, 0.0, 0.0, 0.5]),     # outputs longer than the comparators' length limits, common prefix
         "edit_kinds": rng.choice([None, ["src"] * 6 + ["out", "md"], ["dupedit", "dupedit", "out", "src"], ["dupedit", "dupedit", "src", "out"], ["out", "out", "ec", "md", "src"], ["src", "src", "out"], ["ins", "del", "move", "dup", "out"]]),
     }
-    pool = _pool(rng, swarm)
+    nbgen.LONG_P[0] = swarm["long_p"]
+    if swarm["long_p"]:
+        # long outputs are only interesting if they survive into the edited copies: keep payloads, change counts,
+        # metadata or just the tail of the text
+        swarm["edit_kinds"] = ["outtail", "outmeta", "outmeta", "src", "dupedit"]
+        swarm["max_cells"] = max(swarm["max_cells"], 2)
+    try:
+        pool = _pool(rng, swarm)
+    finally:
+        nbgen.LONG_P[0] = 0.0
     flat = []
     index_of = {}
     for fi, fam in enumerate(pool):
